@@ -19,31 +19,36 @@ const rtPkg = libPrefix + "/verifrt"
 
 func init() {
 	intrinsics = map[string]intrinsic{
-		rtPkg + ".U8":            rtScalar(8),
-		rtPkg + ".U16":           rtScalar(16),
-		rtPkg + ".U32":           rtScalar(32),
-		rtPkg + ".U64":           rtScalar(64),
-		rtPkg + ".Int":           rtScalar(64),
-		rtPkg + ".Bool":          rtScalar(0),
-		rtPkg + ".IntRange":      rtIntRange,
-		rtPkg + ".Choice":        rtChoice,
-		rtPkg + ".Bytes":         rtBytes,
-		rtPkg + ".Assume":        rtAssume,
-		rtPkg + ".Assert":        rtAssert,
-		rtPkg + ".Tag":           rtTag,
-		rtPkg + ".Note":          rtNote,
-		rtPkg + ".Threads":       rtThreads,
-		rtPkg + ".ThreadsIdx":    rtThreads,
-		rtPkg + ".AssertStatic":  rtAssertStatic,
-		rtPkg + ".Havoc":         rtHavoc,
-		rtPkg + ".NoAlias":       rtNoAlias,
-		rtPkg + ".Observe":       rtObserve,
-		rtPkg + ".BytesEq":       rtBytesEq,
-		rtPkg + ".And":           rtBoolOp(OpBAnd),
-		rtPkg + ".Or":            rtBoolOp(OpBOr),
-		rtPkg + ".Implies":       rtImplies,
-		rtPkg + ".LoopBound":     rtLoopBound,
-		rtPkg + ".AllocLimit":    rtAllocLimit,
+		rtPkg + ".U8":           rtScalar(8),
+		rtPkg + ".U16":          rtScalar(16),
+		rtPkg + ".U32":          rtScalar(32),
+		rtPkg + ".U64":          rtScalar(64),
+		rtPkg + ".Int":          rtScalar(64),
+		rtPkg + ".Bool":         rtScalar(0),
+		rtPkg + ".IntRange":     rtIntRange,
+		rtPkg + ".Choice":       rtChoice,
+		rtPkg + ".Bytes":        rtBytes,
+		rtPkg + ".Assume":       rtAssume,
+		rtPkg + ".Assert":       rtAssert,
+		rtPkg + ".Tag":          rtTag,
+		rtPkg + ".Note":         rtNote,
+		rtPkg + ".Threads":      rtThreads,
+		rtPkg + ".ThreadsIdx":   rtThreads,
+		rtPkg + ".AssertStatic": rtAssertStatic,
+		rtPkg + ".Havoc":        rtHavoc,
+		rtPkg + ".NoAlias":      rtNoAlias,
+		rtPkg + ".Observe":      rtObserve,
+		rtPkg + ".BytesEq":      rtBytesEq,
+		rtPkg + ".And":          rtBoolOp(OpBAnd),
+		rtPkg + ".Or":           rtBoolOp(OpBOr),
+		rtPkg + ".Implies":      rtImplies,
+		rtPkg + ".LoopBound":    rtLoopBound,
+		rtPkg + ".AllocLimit":   rtAllocLimit,
+		rtPkg + ".WorkLimit": func(ex *Exec, fn *ssa.Function, args []Value) (Value, *Panic) {
+			ex.workLimit = args[0].(*Term).Int()
+			ex.workBase = ex.instrs
+			return nil, nil
+		},
 		rtPkg + ".DeepEq":        rtDeepEq,
 		rtPkg + ".MonitorShared": rtMonitorShared,
 		rtPkg + ".Ownership":     rtOwnership,
